@@ -174,3 +174,46 @@ M += [
     ("C05", L, "refl", "row", "all", "silent", ""),
     ("C05", T, "spg", "grp", "all", "silent", ""),
 ]
+
+# ---------------------------------------------------------------- regression entries from the seeded changes (round 3) with neutral twins
+M += [
+    # dtype inherited from caller data (C01b) / the same unpacking with dtype=float is fine
+    ("C01", T, "    a = unit_cell[0]\n    b = unit_cell[1]\n    c = unit_cell[2]\n    calp = n.cos(unit_cell[3]*n.pi/180.)\n    cbet = n.cos(unit_cell[4]*n.pi/180.)\n    cgam = n.cos(unit_cell[5]*n.pi/180.)\n    #salp",
+     "    cell = n.array(unit_cell)\n    cell[3:] = n.radians(cell[3:])\n    a = cell[0]\n    b = cell[1]\n    c = cell[2]\n    calp = n.cos(cell[3])\n    cbet = n.cos(cell[4])\n    cgam = n.cos(cell[5])\n    #salp", None, "violation", "C01:dtype:form_a_mat"),
+    ("C01", T, "    a = unit_cell[0]\n    b = unit_cell[1]\n    c = unit_cell[2]\n    calp = n.cos(unit_cell[3]*n.pi/180.)\n    cbet = n.cos(unit_cell[4]*n.pi/180.)\n    cgam = n.cos(unit_cell[5]*n.pi/180.)\n    #salp",
+     "    cell = n.array(unit_cell, float)\n    cell[3:] = n.radians(cell[3:])\n    a = cell[0]\n    b = cell[1]\n    c = cell[2]\n    calp = n.cos(cell[3])\n    cbet = n.cos(cell[4])\n    cgam = n.cos(cell[5])\n    #salp", None, "silent", ""),
+    # fast path in ub_to_u_b (C02b)
+    ("C02", T, "    (U, B) = n.linalg.qr(UB)\n", "    if n.allclose(n.tril(UB, -1), 0):\n        return (n.eye(3), n.triu(UB))\n    (U, B) = n.linalg.qr(UB)\n", None, "violation", "C02:qr:tools.fast-path"),
+    # gimbal test on the cosine (C03b)
+    ("C03", L, "    PHI = np.arccos(U[2, 2])\n    if np.abs(PHI)<tol:", "    PHI = np.arccos(U[2, 2])\n    if 1 - U[2, 2] < tol:", None, "violation", "C03:snap:laue.gimbal-band"),
+    # counter reset per cone (C05b); removing the duplicated sysabs call is neutral
+    ("C05", T, "        htest = 0\n        ktest = 0\n        ltest = 0\n        HLAST = segm[segn, 0, :]\n        HSAVE = segm[segn, 0, :]", "        nref = 0\n        htest = 0\n        ktest = 0\n        ltest = 0\n        HLAST = segm[segn, 0, :]\n        HSAVE = segm[segn, 0, :]", None, "violation", "C05:visit:tools.origin-only"),
+    ("C05", L, "                        ressss = sysabs(HLAST, sysconditions, crystal_system, cell_choice)\n", "", 1, "silent", ""),
+    ("C05", L, "                        if sysabs(HLAST, sysconditions, crystal_system, cell_choice) == 0:", "                        if sysabs(HLAST, sysconditions, crystal_system) == 0:", None, "violation", "C05:syscond:Sg161:rhombohedral:laue"),
+    # inversion added conditionally (C06b)
+    ("C06", T, "    Rots = n.concatenate((spg.rot[:spg.nuniq],-spg.rot[:spg.nuniq]))", "    Rots = spg.rot[:spg.nuniq]\n    if (n.linalg.det(Rots) > 0).all():\n        Rots = n.concatenate((Rots, -Rots))", None, "violation", "C06:expand:tools.rotations"),
+    # dispersion carried over between atoms (C08b)
+    ("C08", S, "        if disper == None or disper[atoms[i].atomtype] == None :\n            fp = 0.0\n            fpp = 0.0\n        else:\n            fp = disper[atoms[i].atomtype][0]\n            fpp = disper[atoms[i].atomtype][1]",
+     "        if i == 0:\n            fp = 0.0\n            fpp = 0.0\n        if disper is not None and disper.get(atoms[i].atomtype) is not None:\n            fp = disper[atoms[i].atomtype][0]\n            fpp = disper[atoms[i].atomtype][1]", None, "violation", "C08:sum:"),
+    ("C08", S, "        if disper == None or disper[atoms[i].atomtype] == None :\n            fp = 0.0\n            fpp = 0.0\n        else:\n            fp = disper[atoms[i].atomtype][0]\n            fpp = disper[atoms[i].atomtype][1]",
+     "        fp = 0.0\n        fpp = 0.0\n        if disper is not None and disper.get(atoms[i].atomtype) is not None:\n            fp = disper[atoms[i].atomtype][0]\n            fpp = disper[atoms[i].atomtype][1]", None, "silent", ""),
+    # memoised table mutated by its caller (C12b)
+    ("C12", Y, "def permutations(crystal_system):", "import functools\n\n\n@functools.lru_cache(maxsize=None)\ndef permutations(crystal_system):", None, "violation", "C12:alias:xfab/symmetry.py:rotations"),
+    # fast path on a run-time value (C10b-like)
+    ("C10", D, "    dety = n.sum(R_tilt[:, 1]*Ltv)/y_size + dety_center\n    detz = n.sum(R_tilt[:, 2]*Ltv)/z_size + detz_center\n    return [dety, detz]\n\ndef det_coor2",
+     "    if R_tilt[0, 0] == 1:\n        return [Ltv[1]/y_size + dety_center, Ltv[2]/z_size + detz_center]\n    dety = n.sum(R_tilt[:, 1]*Ltv)/y_size + dety_center\n    detz = n.sum(R_tilt[:, 2]*Ltv)/z_size + detz_center\n    return [dety, detz]\n\ndef det_coor2", None, "violation", "C10:on-ray:det_coor:zero-tilt-yz"),
+    # pruning by a bound that is attained (C18b)
+    ("C18", L, "                res = np.concatenate((res, [[i, j, k, np.linalg.norm(tmp)]]))", "                length = np.linalg.norm(tmp)\n                if length <= np.max(unit_cell[:3]):\n                    res = np.concatenate((res, [[i, j, k, length]]))", None, "violation", "C18:vectors:laue.coverage"),
+    ("C18", L, "                res = np.concatenate((res, [[i, j, k, np.linalg.norm(tmp)]]))", "                length = np.linalg.norm(tmp)\n                res = np.concatenate((res, [[i, j, k, length]]))", None, "silent", ""),
+    # reader splitting on any white space (C19b)
+    ("C19", P, '                [name, value] = line.split(" ") ', '                [name, value] = line.split() ', None, "violation", "C19:file:reader"),
+    # default argument evaluated at import (C20b)
+    ("C20", L, "    U = np.asarray(U_matrix, float)\n    if CHECKS.activated: checks._check_rotation_matrix(U)\n\n    ttt", "    U = _as_rot(U_matrix)\n\n    ttt", None, "violation", "C20:site:xfab/laue.py:u_to_rod"),
+    # cached group object keyed without the setting (C04b-like): instantiation outside __init__
+    ("C04", SG, "        obj = klass(cell_choice=cell_choice)", "        obj = klass()", None, "violation", "C04:lookup:instantiate"),
+    # QR route with columns flipped (C13b) and the correct QR route
+    ("C13", L, "    deformed_unit_cell = ubi_to_cell(ubi)\n    B_deformed = form_b_mat(deformed_unit_cell)\n    U = np.transpose(np.dot(B_deformed, ubi))\n\n    if CHECKS.activated: checks._check_rotation_matrix(U)\n\n    B = np.linalg.inv(ubi_matrix.dot(U))",
+     "    U, B = np.linalg.qr(np.linalg.inv(ubi))\n    signs = np.sign(np.diag(B))\n    U = U * signs\n    B = B * signs\n\n    if CHECKS.activated: checks._check_rotation_matrix(U)\n", None, "violation", "C13:tau:laue.ubi_to_u_and_eps:qr-route"),
+    ("C13", L, "    deformed_unit_cell = ubi_to_cell(ubi)\n    B_deformed = form_b_mat(deformed_unit_cell)\n    U = np.transpose(np.dot(B_deformed, ubi))\n\n    if CHECKS.activated: checks._check_rotation_matrix(U)\n\n    B = np.linalg.inv(ubi_matrix.dot(U))",
+     "    U, B = np.linalg.qr(np.linalg.inv(ubi))\n    signs = np.sign(np.diag(B))\n    U = U * signs\n    B = (B.T * signs).T\n\n    if CHECKS.activated: checks._check_rotation_matrix(U)\n", None, "silent", ""),
+]
